@@ -60,7 +60,7 @@ RULE = ("cases = (shape, chunking, dtype, encoded index, value mode). Complete p
         "(3,2) (8) (thorough also (6,) and (2,2,2)) x a fixed list of index/value patterns (slices of both signs, empty "
         "slices, ints, integer lists sorted/unsorted/negative/duplicate/empty, boolean lists/arrays, dask int and bool "
         "indexers, Ellipsis, full-shape masks, multi-axis combinations; scalar, full, broadcast and dask values). Random part: "
-        "1-4 d arrays with axis lengths 0-9, random chunkings, random documented index tuples, 7 value modes (scalar, NumPy scalar, 0-d, full, trailing axes, size-1 axes, all-size-1) x {NumPy, list, "
+        "1-4 d arrays with axis lengths 0-9, random chunkings (7 % with a zero-size chunk inside an axis), random documented index tuples, 7 value modes (scalar, NumPy scalar, 0-d, full, trailing axes, size-1 axes, all-size-1) x {NumPy, list, "
         "dask}. non-trivial = some axis split into >= 2 chunks; distinct = distinct (shape, chunks, dtype, index, value mode).")
 ASSUMPTIONS = ["NumPy 2.x assignment defines the expected array", "sync scheduler (threads for a tenth)"]
 BUDGET = {"quick": 120, "thorough": 900}
